@@ -102,6 +102,16 @@ def config_reads(mod, fn, seen=None):
     return out
 
 
+def self_reads(fn, exclude):
+    """`self.X` attributes loaded in fn, other than the cache dictionaries themselves (hidden state a build could depend on)"""
+    out = set()
+    for n in ast.walk(fn):
+        if isinstance(n, ast.Attribute) and isinstance(n.value, ast.Name) and n.value.id == 'self' \
+                and isinstance(n.ctx, ast.Load) and n.attr not in exclude:
+            out.add(f'self.{n.attr}')
+    return out
+
+
 def sign_of_augassign(fn, target, operand):
     """-1 if `target -= operand` occurs, +1 if `target += operand`, 0 if neither; Untranslatable if both / other"""
     found = []
@@ -401,7 +411,7 @@ def generate(repo, pid='C01', extra_imports=(), extra_opens=(), extra=None):
                   and u(n.value) == 'key'][0]
         used = {x.id for x in ast.walk(sb) if isinstance(x, ast.Name) and isinstance(x.ctx, ast.Load)}
         reads = [key[i] for i, t in enumerate(unpack.targets[0].elts) if u(t) in used]
-        reads += sorted(config_reads(ft, sb))
+        reads += sorted(config_reads(ft, sb)) + sorted(self_reads(sb, {'components'}))
         # the components are looked up and stored under the key itself
         get = [u(n) for n in ast.walk(fn) if isinstance(n, ast.Subscript) and u(n.value) == 'self.components']
         if set(get) != {'self.components[key]'}:
@@ -425,7 +435,7 @@ def generate(repo, pid='C01', extra_imports=(), extra_opens=(), extra=None):
             raise Untranslatable('key unpacking in _setup_bases does not match _key')
         used = {x.id for x in ast.walk(sb) if isinstance(x, ast.Name) and isinstance(x.ctx, ast.Load)}
         reads = [key[i] for i, t in enumerate(unpack[0].targets[0].elts) if u(t) in used]
-        for r in sorted(config_reads(ft, sb)):
+        for r in sorted(config_reads(ft, sb)) + sorted(self_reads(sb, {'Ein', 'Eout'})):
             if r not in reads:
                 reads.append(r)
         # every public entry point builds its key with _key and indexes both caches by it
